@@ -3,6 +3,9 @@
 Leg M: TLC checks on every token string in the bound (MC_Constraints) that whenever the
        machine model accepts a grammatical specification its rows agree with the arithmetic
        reference on the n+1 points 0, e_1..e_n, and that non-linear specifications are rejected.
+       The reference reads a run of adjacent operator characters character by character (`x - - y`,
+       `- - x`, `x = - 1`), so the machine's rule for sign runs is itself checked against arithmetic;
+       the erroneous rule SignRule = "anyminus" must violate Sound inside the bound (negative control).
 Leg R: each enumerated string goes through LinearConstraints.from_spec (string, list and
        mapping forms, and ModelSpec.get_linear_constraints); (A, b) is compared exactly.
 Leg T: random deep expressions (repeated variables, decimals, exotic column names) recorded
@@ -76,6 +79,8 @@ def replay_case(case):
         m = case["r"][n]
         exp_rows = [{"a": [list(v) for v in row["a"]], "b": list(row["b"])} for row in m["rows"]]
         forms = [("string", s)]
+        if case["t"] and "," not in case["t"]:
+            forms.append(("list of one string", [s]))  # gamma: the same single constraint as the only item of a list (the model has one row family; only the container differs)
         parts = _split_top(case["t"])
         if len(parts) > 1 and all(parts):
             forms.append(("list", [" ".join(p) for p in parts]))
@@ -128,11 +133,18 @@ def _judge(m, exp_rows, obs):
 def enumerated(ctx: Ctx, maxlen: int):
     out = workdir("c16") / f"cases-{maxlen}.ndjson"
     out.unlink(missing_ok=True)
-    cfg = f"SPECIFICATION Spec\nCONSTANTS\n  MaxLen = {maxlen}\n  Emit = TRUE\nINVARIANT Sound\nINVARIANT NonLinearRejected\nINVARIANT EmitCase\n"
+    cfg = f"SPECIFICATION Spec\nCONSTANTS\n  MaxLen = {maxlen}\n  Emit = TRUE\n  SignRule = \"parity\"\nINVARIANT Sound\nINVARIANT NonLinearRejected\nINVARIANT EmitCase\n"
     r = run_tlc("MC_Constraints", cfg, tag="c16", env={"OUT_FILE": str(out)}, timeout=3000)
     if r.violated:
         ctx.model_violation(r, f"MC_Constraints <= {maxlen}")
     ctx.add_tlc(r, f"affine agreement on n+1 points + non-linear rejection + emission; len<={maxlen}")
+    # the design error "a run of signs that contains a minus is a minus" must be refuted by the arithmetic reference
+    # inside the bound: otherwise no enumerated string has an even run of minuses that the reference reads (before the
+    # reference read runs character by character it read none, and the rows of `x - - y` were compared with nothing).
+    v = run_tlc("MC_Constraints", f"SPECIFICATION Spec\nCONSTANTS\n  MaxLen = {min(maxlen, 4)}\n  Emit = FALSE\n  SignRule = \"anyminus\"\nINVARIANT Sound\n", tag="c16v", timeout=3000)
+    if "Sound" not in v.violated:
+        raise MachineryError("MC_Constraints: the sign rule 'anyminus' does not violate Sound - no string of the family has an even run of minuses in the reference's grammar")
+    ctx.notes["design_errors_refuted"] = ["anyminus (sign of a run = minus iff it contains a minus)"]
     cases = read_emitted(out)
     if len(cases) != r.distinct:
         raise MachineryError(f"emission incomplete: {len(cases)} of {r.distinct}")
